@@ -6,7 +6,7 @@ import re
 
 from .. import anchors as A
 from ..consteval import try_fold
-from ..model import AnalysisError, FuncInfo, Project, call_name, kwarg, walk_local
+from ..model import local_values, AnalysisError, FuncInfo, Project, call_name, kwarg, walk_local
 from ..paths import PState, PathAnalysis, run_paths, subst_text
 from ..report import Report
 from . import _stdio
@@ -25,6 +25,8 @@ def check(P: Project, R: Report) -> None:
 
     def ev(call, st: PState, an: PathAnalysis):
         nm = call_name(call)
+        if isinstance(call.func, ast.Attribute) and call.func.attr in ("send", "send_all", "write"):
+            nm = subst_text(call.func.value, st) + "." + call.func.attr  # (`stdin = self.process.stdin; await stdin.send(…)`)
         if nm.endswith("stdin.send") or nm.endswith("stdin.send_all") or nm.endswith("stdin.write"):
             arg = call.args[0] if call.args else None
             return "send:" + (subst_text(arg, st) if arg is not None else "?") + "||" + "&&".join(sorted(st.lits))
@@ -50,6 +52,20 @@ def check(P: Project, R: Report) -> None:
     # ------------------------------------------------------------------ R1 / R2 / R3
     success = [st for st in ends if any(e.startswith("send:") for e in st.events)]
     R.need(success, "anchor: no iteration path writes to stdin")
+    # one line, one write: a write inside a loop of its own puts the line on the pipe in pieces, with a checkpoint after each
+    lv_w = local_values(wr.node)
+
+    def is_stdin(e) -> bool:
+        t = ast.unparse(e)
+        if t.endswith("stdin"):
+            return True
+        return isinstance(e, ast.Name) and any(v is not None and ast.unparse(v).endswith("stdin") for v in lv_w.get(e.id, []))
+
+    for inner in [l for l in walk_local(loop) if isinstance(l, (ast.For, ast.AsyncFor, ast.While)) and l is not loop]:
+        for c in walk_local(inner):
+            if isinstance(c, ast.Call) and isinstance(c.func, ast.Attribute) and c.func.attr in ("send", "send_all", "write") and is_stdin(c.func.value):
+                R.ob("R1", "a line is put on the pipe by one write", False, f"{rel}:{c.lineno}",
+                     f"`{ast.unparse(c)[:60]}` runs once per piece of the line, and every awaited write lets other tasks run: the reader task's own write to the same pipe (the batch-rejection reply) can land between two pieces, so the child sees a raw line break inside a message and two lines that do not decode")
     # an iteration that ends without a send must have gone through the except arm (message dropped)
     silent = [st for st in ends if not any(e.startswith("send:") for e in st.events)]
     handler_vars = {h.name for t in walk_local(loop) if isinstance(t, ast.Try) for h in t.handlers if h.name}
@@ -183,7 +199,6 @@ def check(P: Project, R: Report) -> None:
 
     # closing the write stream ends the outgoing stream only if the caller's handle is the only sending handle:
     # a clone of the send end that lives on (anything but `with … .clone() as h`) keeps the writer's `async for` from ever ending
-    from ..model import local_values
     from ..roles import stream_roles
 
     ci = _stdio.client(P)
